@@ -201,4 +201,24 @@ Str(u) ==
        LET hs == HostSubcomponent(u) IN
        OK(UnsplitResult(u.scheme, MakeNetloc(RawUser(u).ok, RawPassword(u).ok, hs.ok, NONE, FALSE), path, u.query, u.fragment))
   ELSE OK(UnsplitResult(u.scheme, u.netloc, path, u.query, u.fragment))
+
+\* ---------------------------------------------------------------- URL.join
+\* Dev_JoinInheritsBaseFragment (the base fragment was inherited when the reference had neither path nor
+\* fragment) and Dev_JoinMergesDecodedBase (decoded base directory) are FIXED in /repo -> not modelled.
+\* Still present: for a base WITHOUT authority whose path is empty or rootless the code prefixes "/" to the
+\* reference path (empty base path) and normalises with a stack that drops a leading ".." instead of
+\* producing the "/" the literal 5.2.4 algorithm yields (Dev_JoinRootlessBase).
+DirOf(p) == LET i == RFind(p, SLASH) IN IF i = 0 THEN <<>> ELSE Upto(p, i)
+Join(b, r) ==
+  LET scheme == IF r.scheme # <<>> THEN r.scheme ELSE b.scheme IN
+  IF scheme # b.scheme \/ scheme \notin UsesRelative THEN r
+  ELSE IF r.netloc # <<>> /\ scheme \in UsesNetloc THEN Url(scheme, r.netloc, r.path, r.query, r.fragment)
+  ELSE LET p0 == IF r.path = <<>> THEN b.path
+                 ELSE IF r.path[1] = SLASH THEN r.path
+                 ELSE IF b.path = <<>> THEN <<SLASH>> \o r.path
+                 ELSE DirOf(b.path) \o r.path
+           p1 == IF r.path # <<>> /\ Has(p0, DOT) THEN NormalizePath(p0) ELSE p0
+       IN Url(scheme, b.netloc, p1,
+              IF r.path # <<>> \/ r.query # <<>> THEN r.query ELSE b.query,
+              r.fragment)
 =============================================================================
